@@ -716,6 +716,15 @@ def hardening_streams(tier, rng):
             cases.append((504, a)); cases.append((503, [_layout_fast(*a[0], a[1])]))
     for n in (65530, 65531):
         cases.append((501, [[17, 1, 1, 1, 1, 15], [0] * n])); cases.append((504, [[17, 1, 1, 1, 1, 15], [0] * n]))
+    # round-number TOTAL packet lengths (block-wise processing slips show at exact multiples of a block size)
+    rounds = sorted({k * 10000 for k in range(1, 7)} | {1 << k for k in range(12, 17)} | {5000, 8192 * 3, 25000, 48000, 65535}
+                    | {rng.randrange(4200, 65542) for _ in range(3)})
+    for T in rounds:
+        for d in ((0,) if not big else (-1, 0, 1)):
+            n = T + d - 13
+            if 0 <= n <= 65529:
+                a = [[17, 1, rng.randrange(2048), rng.randrange(16384), rng.randrange(65536), 15], pc.rbytes(rng, n)]
+                cases.append((505, a))
     pkt = _layout_fast(17, 1, 1, 1, 1, 15, pc.rbytes(rng, 20))       # a long backlog behind the packet
     cases.append((502, [pkt + pc.rbytes(rng, 70000)])); cases.append((503, [pkt + pkt * 40]))
     yield "size_sweep_pack_unpack", "exact", cases
